@@ -184,7 +184,10 @@ def _get_process_streams_in_each_subzone(
         if len(path_components) > 1 and path_components[0] == master_zone.name:
             # path relative to the master zone; shorter suffixes would also match unrelated zones
             streams_by_relative_path["/".join(path_components[1:])].append(stream)
-        streams_by_relative_path[zone_path].append(stream)
+        else:
+            # a path that already starts at the master zone is not ALSO a relative one: "Site/B/O1" would match
+            # the zone Site/Site/B/O1 created for another stream labelled "Site/B"
+            streams_by_relative_path[zone_path].append(stream)
 
     def _iter_zones(parent_zone: Zone):
         """Depth-first traversal yielding each zone once."""
